@@ -320,7 +320,10 @@ def log_roundtrip(ctx: Ctx, built: bool, n: int) -> None:
     # align log lines with the packets offered (a frame rejected by Frame.__init__ is never logged)
     pairs, j = [], 0
     for ln in body:
-        while j < len(sent) and not ln[31:].startswith(sent[j][2]):
+        def is_line_of(ln, x):      # the whole frame, then the end of the line or an annotation (a damaged frame "R" is not the line of "RP 038 ...")
+            return ln[27:30] == x[1] and ln[31:].startswith(x[2]) and ln[31 + len(x[2]):31 + len(x[2]) + 1] in ("", " ")
+
+        while j < len(sent) and not is_line_of(ln, sent[j]):
             if sent[j][4]:
                 ctx.violation("log-missing-packet", "an accepted packet was not written to the packet log", {"frame": sent[j][2]})
             j += 1
